@@ -50,6 +50,12 @@ def patch_crosshair():
     import crosshair.core as core
     import crosshair.statespace as ss
 
+    # (0) CrossHair models functools.lru_cache as "no cache" (it calls __wrapped__): for this work a cache is part of the real
+    # code's behaviour (a stale or colliding cache entry is exactly the kind of history dependence the properties forbid),
+    # so the real C implementation runs.  Symbolic arguments reaching it are realised when hashed (none do in circus).
+    import functools
+    core._PATCH_REGISTRATIONS.pop(functools._lru_cache_wrapper.__call__, None)
+
     # (1) no short-circuiting of annotated / contracted callees: every callee is executed.
     core.ShortCircuitingContext.make_interceptor = lambda self, f: f
 
